@@ -16,4 +16,8 @@ let () = iter_lines (fun line ->
       let lim = { max_mem = optnat mm; max_parts = optnat mp } in
       let (l, e) = trace lim (nlist_of_hex b) cs in
       String.concat " " (List.map ev_str l @ (match e with Some x -> [err_str x] | None -> []))
+  | ["headers"; h] ->
+      (match parse_headers (nlist_of_hex h) with
+       | Some l -> "ok " ^ (if l = [] then "-" else String.concat "|" (List.map (fun (n, v) -> csv_of_nlist n ^ "=" ^ csv_of_nlist v) l))
+       | None -> "UnicodeDecodeError")
   | _ -> "bad-command")
